@@ -28,7 +28,8 @@ fn panic_violation(ctx: &mut Ctx, monitor: &'static str, subject: &str, b: &[u8]
 pub fn bytes_workload(ctx: &mut Ctx, shard: usize, nshards: usize, salt: u64, n_quick: usize, n_thorough: usize, f: &mut dyn FnMut(&mut Ctx, &[u8])) {
     if ctx.scale >= 0.5 {
         let stride = if ctx.thorough { 1 } else { 4 };
-        gb::header_space(shard, nshards, stride, &mut |b| f(ctx, b));
+        let n = gb::header_space(shard, nshards, stride, &mut |b| f(ctx, b));
+        ctx.class_add(if stride == 1 { "exhaustive:header-space(all first bytes x 11 types x length field 0..=12 x actual length 0..=52 x 4 fills)" } else { "exhaustive:header-space(version-2 first bytes in full, others strided by 4)" }, n);
         if shard == 0 {
             gb::large_inputs(&mut |b| f(ctx, b));
         }
